@@ -44,6 +44,18 @@ func c07faults(c *wk.Ctx) []c07fault {
 	for _, h := range []string{"flip-first-block", "flip-middle-block", "flip-last-block", "hash-altered", "content-altered-stale-hash", "length-not-multiple-of-16", "truncated-to-16", "empty", "pad-16", "pad-32"} {
 		out = append(out, c07fault{"dh.answer", h, 0})
 	}
+	// every block-aligned length shorter than the honest answer (0 = one block short of it)
+	cuts := []int{32, 48, 64, 0}
+	if !c.Quick() {
+		cuts = nil
+		for n := 32; n <= 640; n += 16 {
+			cuts = append(cuts, n)
+		}
+		cuts = append(cuts, 0)
+	}
+	for _, n := range cuts {
+		out = append(out, c07fault{"dh.answer", "truncated-to", n})
+	}
 	hb := []int{0, 8, 127}
 	if !c.Quick() {
 		hb = bits
@@ -162,6 +174,14 @@ func c07case(c *wk.Ctx, idx int, r *rand.Rand, f c07fault) {
 				h.PostSeal = func(e []byte) []byte { return append(e, 1, 2, 3) }
 			case "truncated-to-16":
 				h.PostSeal = func(e []byte) []byte { return e[:16] }
+			case "truncated-to":
+				h.PostSeal = func(e []byte) []byte {
+					n := f.Arg
+					if n <= 0 || n >= len(e) {
+						n = len(e) - 16
+					}
+					return e[:n:n]
+				}
 			case "empty":
 				h.PostSeal = func(e []byte) []byte { return nil }
 			case "pad-16":
